@@ -121,10 +121,11 @@ type Engine struct {
 	ghosts        map[string]*ghostRef
 	ioSites       []ioSite
 	constArrs     map[string]string
+	sumFns        map[string]string
 }
 
 func newEngine(p *Prog, fn *ssa.Function) *Engine {
-	return &Engine{prog: p, vc: newVC(p), root: fn, rootKey: funcKey(fn), heapSorts: map[string]string{}, heapInit: map[string]string{}, maxInline: 4, nameCount: map[string]int{}, calledFns: map[string]bool{}, usedContracts: map[string]bool{}, ghosts: map[string]*ghostRef{}, constArrs: map[string]string{}}
+	return &Engine{prog: p, vc: newVC(p), root: fn, rootKey: funcKey(fn), heapSorts: map[string]string{}, heapInit: map[string]string{}, maxInline: 4, nameCount: map[string]int{}, calledFns: map[string]bool{}, usedContracts: map[string]bool{}, ghosts: map[string]*ghostRef{}, constArrs: map[string]string{}, sumFns: map[string]string{}}
 }
 
 func (e *Engine) note(kind, s string) {
@@ -155,6 +156,13 @@ func (e *Engine) initHeap(name, sort string) string {
 	}
 	e.heapInit[name] = c
 	e.heapSorts[name] = sort
+	if strings.HasPrefix(name, "called_") || name == "lock_held" {
+		// ghost flags start false
+		e.vc.lines = append([]string{e.vc.lines[0], "(assert (not " + c + "))"}, e.vc.lines[1:]...)
+		for _, o := range e.vc.obls {
+			o.prefix++
+		}
+	}
 	return c
 }
 
